@@ -54,4 +54,54 @@ def idealFuel (ztab : List (Bytes × Bytes × Bool)) (w : BW) : Nat :=
      | some (_, content, _) => content.length - (idealSt ztab w.cenc dz.hist).2
      | none => 0) + 1
 
+/-! ### the table decompressor the driver runs since review batch 4: input THROUGH A BUFFERED READER, nothing consumed after the end
+
+`flate2::read::{Gz,Zlib,Deflate}Decoder<RingBuffer>` read their input through a `BufReader` (32 KiB): it fetches from the ring only when it
+is empty, and once the compressed stream has ended the decoders consume nothing more - bytes after the end of the stream stay in the
+`BufReader` (what was fetched together with the end of the stream) and then in the RING, `read` answers `Ok(0)`, and `decode_write_pkt`
+fails only when the ring is full twice in a row ("Decoder does not consume its input").  `idealStep` above always drains the ring and
+answers `Err` on trailing bytes (kept: agent path's `idealContract` is about it).  `tableStep` follows the code: state = (consumed
+stream bytes, output bytes produced, bytes fetched but not consumed); a fetch takes the whole ring content (rings of the compared runs are
+smaller than the 32 KiB of the `BufReader`). -/
+
+def tableStep (ztab : List (Bytes × Bytes × Bool)) (stt : Bytes × Nat × Bytes) (c : DzCall) : (Bytes × Nat × Bytes) × DzOut :=
+  let (consumed, produced, left) := stt
+  -- `BufReader::fill_buf`: fetch only when the buffer is empty
+  let fetch := if left.isEmpty then c.avail else []
+  let buf := left ++ fetch
+  match ztab.find? (fun e => isPrefix e.1 (consumed ++ buf)) with
+  | some (cmp, content, bad) =>
+    -- the whole compressed stream has been fetched: `n` bytes of the buffer belong to it, the rest is never consumed
+    let n := cmp.length - consumed.length
+    let out := (content.drop produced).take c.buflen
+    if bad ∧ out.isEmpty ∧ c.buflen != 0 then
+      ((consumed ++ buf.take n, produced, buf.drop n), { take := fetch.length, res := .err })
+    else ((consumed ++ buf.take n, produced + out.length, buf.drop n), { take := fetch.length, res := .data out })
+  | none =>
+    if ztab.any (fun e => isPrefix (consumed ++ buf) e.1) ∧ !c.fin then
+      ((consumed ++ buf, produced, []), { take := fetch.length, res := .wouldBlock })
+    else ((consumed ++ buf, produced, []), { take := fetch.length, res := .err })
+
+/-- one call of the history: the first call (`buflen = 0`) is the constructor, only the gzip decoder reads (its header) there -/
+def tableCall (ztab : List (Bytes × Bytes × Bool)) (cenc : Cenc) (s : Bytes × Nat × Bytes) (h : DzCall) : (Bytes × Nat × Bytes) × DzOut :=
+  if (h.buflen == 0) = true ∧ (cenc != .gzip) = true then (s, { take := 0, res := .wouldBlock }) else tableStep ztab s h
+
+/-- state of the table decompressor after a call history -/
+def tableSt (ztab : List (Bytes × Bytes × Bool)) (cenc : Cenc) (hist : List DzCall) : Bytes × Nat × Bytes :=
+  hist.foldl (fun s h => (tableCall ztab cenc s h).1) ([], 0, [])
+
+def tableDz (ztab : List (Bytes × Bytes × Bool)) (cenc : Cenc) (hist : List DzCall) (c : DzCall) : DzOut :=
+  (tableCall ztab cenc (tableSt ztab cenc hist) c).2
+
+/-- the longest content of the table -/
+def maxContent : List (Bytes × Bytes × Bool) → Nat
+  | [] => 0
+  | e :: r => max e.2.1.length (maxContent r)
+
+/-- the inner fuel of one `decoder_read`: the output the table can still provide (longest content minus what was handed out) + 1 -/
+def tableFuel (ztab : List (Bytes × Bytes × Bool)) (w : BW) : Nat :=
+  match w.dz with
+  | none => 1
+  | some dz => (maxContent ztab - (tableSt ztab w.cenc dz.hist).2.1) + 1
+
 end Flute.Drv.Orecv
